@@ -177,8 +177,15 @@ func (v *VFD) answer(want int) (int, error) {
 	return a.N, nil
 }
 
+// WriteCheck, when set, sees every buffer handed to Write on a virtual descriptor before the kernel
+// answers (C11: the memory must lie in a live pooled buffer or in memory the pool never owned).
+var WriteCheck func(fd int, b []byte)
+
 func Write(fd int, b []byte) (int, error) {
 	if v := get(fd); v != nil {
+		if WriteCheck != nil {
+			WriteCheck(fd, b)
+		}
 		v.mu.Lock()
 		defer v.mu.Unlock()
 		n, err := v.answer(len(b))
